@@ -4,6 +4,7 @@
 package env
 
 import (
+	"context"
 	"fmt"
 	"io"
 	"log"
@@ -153,6 +154,11 @@ type Req struct {
 	FailWriteAfter int
 	// OnWrite is called at the start of every Write of the ResponseWriter (slow connection).
 	OnWrite func()
+	// Ctx, when set, is the parent of the request's context (client that goes away: cancel it).
+	Ctx context.Context
+	// BodyReader, when set, replaces Body as the source of the request body (slow upload); BodyLen is its length.
+	BodyReader io.Reader
+	BodyLen    int64
 }
 
 // Do executes the request in the calling goroutine, recovering panics.
@@ -197,6 +203,12 @@ func (e *Env) Do(rq Req) *Call {
 	}
 	if rq.Query != "" {
 		r.RequestURI += "?" + rq.Query
+	}
+	if rq.BodyReader != nil {
+		r.Body, r.ContentLength = io.NopCloser(rq.BodyReader), rq.BodyLen
+	}
+	if rq.Ctx != nil {
+		r = r.WithContext(rq.Ctx)
 	}
 	r = r.WithContext(sim.WithTag(r.Context(), tag))
 	c := &Call{Tag: tag, Method: rq.Method, Path: rq.Path, Query: rq.Query, Host: rq.Host, Body: rq.Body, Hdr: h, Rec: reply.NewRecorder()}
